@@ -14,6 +14,7 @@ import c_rot
 import c_conv
 import c_xform
 import c_proj
+import c_metric
 import re
 import sym
 
@@ -277,6 +278,25 @@ def unit_C10(src, angle_kind='Rad'):
     return u
 
 
+def unit_C11(src):
+    u = Unit('C11', src, 'R')
+    lib, F = full_base(u, 'Rad')
+    u.spec_texts.append(lib.text())
+    u.spec_texts.append(c_metric.text_specs())
+    u.contract_fns.insert(0, c_metric.contracts)
+    c_metric.select(u)
+    own = lambda im, f: im is not None and ((trait_name_of(im) == 'InnerSpace' and f.name in ('magnitude', 'normalize', 'normalize_to', 'project_on', 'angle', 'is_perpendicular'))
+                                            or (trait_name_of(im) == 'MetricSpace' and f.name == 'distance'))
+    u.assume_pred = lambda im, f: not own(im, f)
+    u.lemma_texts.append(sym.HELPER_LEMMAS)
+    for L in c_vector.laws(F):
+        if L.name.endswith('_scalar'):
+            u.lemma_texts.append(L.render_assumed('C03'))
+    add_laws(u, c_metric.laws(F))
+    u.lemma_texts.append(c_metric.handwritten())
+    return u
+
+
 def trait_name_of(im):
     from emit import trait_name
     return trait_name(im.trait)
@@ -294,7 +314,7 @@ def build_C03(src, tier):
     return [unit_C03(src, 'R')]
 
 
-UNITS = {'C10': lambda src, tier: [unit_C10(src, 'Rad'), unit_C10(src, 'Deg')], 'C08': lambda src, tier: [unit_C08(src, 'q'), unit_C08(src, 'b3'), unit_C08(src, 'b2')], 'C05': lambda src, tier: [unit_conv(src, 'C05', 'Rad')], 'C07': lambda src, tier: [unit_conv(src, 'C07', 'Rad'), unit_conv(src, 'C07', 'Deg')], 'C06': lambda src, tier: [unit_C06(src, 'Rad'), unit_C06(src, 'Deg')], 'C13': lambda src, tier: [unit_C13(src, 'R')], 'C04': lambda src, tier: [unit_C04(src, 'R')], 'C02': lambda src, tier: [unit_C02(src, 'R'), unit_C02t(src)], 'C01': lambda src, tier: [unit_C01(src, 'R'), unit_C01t(src, 'R')], 'C03': build_C03, 'C12': lambda src, tier: [unit_C12(src, 'R')]}
+UNITS = {'C11': lambda src, tier: [unit_C11(src)], 'C10': lambda src, tier: [unit_C10(src, 'Rad'), unit_C10(src, 'Deg')], 'C08': lambda src, tier: [unit_C08(src, 'q'), unit_C08(src, 'b3'), unit_C08(src, 'b2')], 'C05': lambda src, tier: [unit_conv(src, 'C05', 'Rad')], 'C07': lambda src, tier: [unit_conv(src, 'C07', 'Rad'), unit_conv(src, 'C07', 'Deg')], 'C06': lambda src, tier: [unit_C06(src, 'Rad'), unit_C06(src, 'Deg')], 'C13': lambda src, tier: [unit_C13(src, 'R')], 'C04': lambda src, tier: [unit_C04(src, 'R')], 'C02': lambda src, tier: [unit_C02(src, 'R'), unit_C02t(src)], 'C01': lambda src, tier: [unit_C01(src, 'R'), unit_C01t(src, 'R')], 'C03': build_C03, 'C12': lambda src, tier: [unit_C12(src, 'R')]}
 KANI = {}
 META = {
     'C03': dict(min_obligations=350, trust=['A1', 'A2', 'A6'],
